@@ -13,6 +13,12 @@
 //! (`Model/Shutdown.v`, `obs_shutdown`) checks that the trace is a run of the transition system
 //! (trace inclusion, hidden steps inserted by the checker) and recomputes the outcomes every
 //! accepted call must have.  The direct oracle below judges the property on the log alone.
+//!
+//! Further dimensions: the builder options `accept_http1`, `concurrency_limit_per_connection`,
+//! `timeout` and `max_connection_age` (struct `Opts`); a listener that stays permanently ready
+//! (`Act::Flood`: the listener fires the signal itself while it keeps producing connections, so a
+//! select loop that prefers the listener starves the signal visibly); and `tcp.*` kinds that run
+//! `Router::serve_with_shutdown(addr, signal)` over 127.0.0.1 in real time (function `run_tcp`).
 use bytes::{Buf, BufMut, Bytes};
 use futures_util::stream::{self, Stream};
 use http_body::{Body as HttpBody, Frame};
@@ -121,6 +127,25 @@ enum Act {
     DropClient(u32),
     /// run until every task is idle (virtual time advances only then)
     Settle,
+    /// the listener becomes permanently ready: it hands out `pre` (>= 1) fresh connections back to
+    /// back (their peers have already gone away), fires the signal itself at the end of the poll
+    /// that produced the last of them, and stays ready for up to `cap` further connections
+    Flood(u32, u32),
+    /// tcp kinds only: wait until the client of call k has its outcome
+    Await(u32),
+}
+/// builder options of the server under test
+#[derive(Clone, Debug, Default, PartialEq)]
+struct Opts {
+    accept_http1: bool,
+    /// concurrency_limit_per_connection; below the number of concurrent calls of a connection the
+    /// later ones wait in the per-connection stack's poll_ready, already received by hyper but not
+    /// yet handed to the application (CallStart is logged when they are)
+    limit: Option<usize>,
+    /// Server::timeout, far above every virtual duration of a run
+    timeout_ms: Option<u64>,
+    /// run over 127.0.0.1 with Router::serve_with_shutdown, in real time
+    tcp: bool,
 }
 #[derive(Clone, Debug)]
 struct Scenario {
@@ -128,6 +153,7 @@ struct Scenario {
     calls: Vec<CallSpec>,
     script: Vec<Act>,
     max_age_ms: Option<u64>,
+    opts: Opts,
 }
 
 fn scn_json(s: &Scenario) -> Value {
@@ -149,8 +175,11 @@ fn scn_json(s: &Scenario) -> Value {
             Act::IncomingError(t) => json!(["incoming_error", *t as u32]),
             Act::DropClient(c) => json!(["drop_client", c]),
             Act::Settle => json!(["settle"]),
+            Act::Flood(pre, cap) => json!(["flood", pre, cap]),
+            Act::Await(k) => json!(["await", k]),
         }).collect::<Vec<_>>(),
         "max_age_ms": s.max_age_ms,
+        "opts": {"accept_http1": s.opts.accept_http1, "limit": s.opts.limit, "timeout_ms": s.opts.timeout_ms, "tcp": s.opts.tcp},
     })
 }
 fn scn_from_json(v: &Value) -> Scenario {
@@ -186,10 +215,18 @@ fn scn_from_json(v: &Value) -> Scenario {
                 "end_incoming" => Act::EndIncoming,
                 "incoming_error" => Act::IncomingError(arg() == 1),
                 "drop_client" => Act::DropClient(arg()),
+                "flood" => Act::Flood(arg(), u(&a[2]) as u32),
+                "await" => Act::Await(arg()),
                 _ => Act::Settle,
             }
         }).collect(),
         max_age_ms: v["max_age_ms"].as_u64(),
+        opts: Opts {
+            accept_http1: v["opts"]["accept_http1"].as_bool().unwrap_or(false),
+            limit: v["opts"]["limit"].as_u64().map(|x| x as usize),
+            timeout_ms: v["opts"]["timeout_ms"].as_u64(),
+            tcp: v["opts"]["tcp"].as_bool().unwrap_or(false),
+        },
     }
 }
 
@@ -216,20 +253,26 @@ enum Ev {
     /// nothing moved for 30 virtual seconds after every handler had been let through
     Quiet,
     /// the server wrote a GOAWAY frame on connection c; true = the final one (a real last stream
-    /// id), false = the announcement (last stream id 2^31-1) that graceful_shutdown starts with
-    Goaway(u32, bool),
+    /// id, the third field), false = the announcement (last stream id 2^31-1) that
+    /// graceful_shutdown starts with
+    Goaway(u32, bool, u32),
     // marks written by the script driver (not server events; the oracle relates positions to them)
     MarkSignalFired,
     /// the first quiescent point after the signal was fired
     MarkIdleAfterFire,
     MarkOffered(u32),
     MarkClientDropped(u32),
+    /// the permanently ready listener gave up: it had handed out its whole allowance of connections
+    /// after the signal had fired and the accept loop was still asking for more
+    FloodExhausted,
 }
 struct Shared {
     log: Mutex<Vec<Ev>>,
     calls: HashMap<u32, CallSpec>,
     gates: HashMap<u32, Arc<Semaphore>>,
     cgates: HashMap<u32, Arc<Semaphore>>,
+    /// tcp kinds: client-side local port -> connection id
+    ports: Mutex<HashMap<u16, u32>>,
 }
 impl Shared {
     fn log(&self, e: Ev) {
@@ -297,8 +340,9 @@ struct WireScan {
     goaway: Option<Vec<u8>>,
 }
 impl WireScan {
-    /// feed written bytes; returns for every GOAWAY seen whether it is the final one
-    fn feed(&mut self, mut b: &[u8]) -> Vec<bool> {
+    /// feed written bytes; returns for every GOAWAY seen whether it is the final one, and its
+    /// last-stream-id
+    fn feed(&mut self, mut b: &[u8]) -> Vec<(bool, u32)> {
         let mut out = vec![];
         while !b.is_empty() {
             if self.left == 0 && self.hdr.len() < 9 {
@@ -321,7 +365,7 @@ impl WireScan {
                     g.extend_from_slice(&b[..m]);
                     if g.len() == 4 {
                         let last = u32::from_be_bytes([g[0], g[1], g[2], g[3]]) & 0x7fff_ffff;
-                        out.push(last != 0x7fff_ffff);
+                        out.push((last != 0x7fff_ffff, last));
                     }
                 }
             }
@@ -354,8 +398,8 @@ impl AsyncWrite for FragIo {
         let n = if me.chunk == 0 { data.len() } else { data.len().min(me.chunk) };
         let r = Pin::new(&mut me.inner).poll_write(cx, &data[..n]);
         if let (Poll::Ready(Ok(w)), Some(sh)) = (&r, &me.accepted) {
-            for fin in me.wire.feed(&data[..*w]) {
-                sh.log(Ev::Goaway(me.cid, fin));
+            for (fin, last) in me.wire.feed(&data[..*w]) {
+                sh.log(Ev::Goaway(me.cid, fin, last));
             }
         }
         r
@@ -381,15 +425,63 @@ impl Drop for FragIo {
     }
 }
 
+/// first connection id handed out by the permanently ready listener
+const FLOOD_BASE: u32 = 1000;
+type SigTx = Arc<Mutex<Option<oneshot::Sender<()>>>>;
+/// state of the permanently ready listener (`Act::Flood`)
+#[derive(Default)]
+struct FloodState {
+    on: bool,
+    pre: u32,
+    cap: u32,
+    /// connections handed out so far / of these, after the signal had fired
+    next: u32,
+    after: u32,
+    fired: bool,
+    /// the accept loop's waker, so that the script can switch the flood on
+    waker: Option<std::task::Waker>,
+}
 /// the listener: an mpsc-fed stream of server ends
 struct Incoming {
     rx: mpsc::UnboundedReceiver<Result<FragIo, io::Error>>,
     sh: Arc<Shared>,
+    flood: Arc<Mutex<FloodState>>,
+    sig_tx: SigTx,
 }
 impl Stream for Incoming {
     type Item = Result<FragIo, io::Error>;
     fn poll_next(self: Pin<&mut Self>, cx: &mut Context<'_>) -> Poll<Option<Self::Item>> {
         let me = self.get_mut();
+        {
+            let mut f = me.flood.lock().unwrap();
+            f.waker = Some(cx.waker().clone());
+            if f.on && f.fired && f.after >= f.cap {
+                f.on = false;
+                me.sh.log(Ev::FloodExhausted);
+            }
+            if f.on {
+                // always ready: a fresh connection whose peer has already hung up
+                let c = FLOOD_BASE + f.next;
+                f.next += 1;
+                let (cli, srv) = tokio::io::duplex(1024);
+                drop(cli);
+                me.sh.log(Ev::MarkOffered(c));
+                me.sh.log(Ev::MarkClientDropped(c));
+                me.sh.log(Ev::Accept(c));
+                if f.fired {
+                    f.after += 1;
+                } else if f.next >= f.pre {
+                    // the signal fires now - after this connection was produced
+                    f.fired = true;
+                    if let Some(t) = me.sig_tx.lock().unwrap().take() {
+                        me.sh.log(Ev::MarkSignalFired);
+                        let _ = t.send(());
+                    }
+                }
+                let io = FragIo { inner: srv, chunk: 0, cid: c, accepted: Some(me.sh.clone()), wire: WireScan::default() };
+                return Poll::Ready(Some(Ok(io)));
+            }
+        }
         match ready!(me.rx.poll_recv(cx)) {
             Some(Ok(mut io)) => {
                 me.sh.log(Ev::Accept(io.cid));
@@ -606,7 +698,15 @@ impl tower_service::Service<http::Request<tonic::body::Body>> for Svc {
     }
     fn call(&mut self, req: http::Request<tonic::body::Body>) -> Self::Future {
         let sh = self.0.clone();
-        let c = req.extensions().get::<ConnId>().map(|c| c.0).unwrap_or(u32::MAX);
+        let c = match req.extensions().get::<ConnId>() {
+            Some(c) => c.0,
+            None => req
+                .extensions()
+                .get::<tonic::transport::server::TcpConnectInfo>()
+                .and_then(|i| i.remote_addr())
+                .and_then(|a| sh.ports.lock().unwrap().get(&a.port()).cloned())
+                .unwrap_or(u32::MAX),
+        };
         let k = req
             .headers()
             .get("x-k")
@@ -733,24 +833,42 @@ async fn settle() {
     // time is paused: the clock only moves when every task is idle, so this is a quiescence barrier
     tokio::time::sleep(Duration::from_millis(1)).await;
 }
-async fn run_case(scn: Scenario) -> RunResult {
-    let sh = Arc::new(Shared {
+fn mk_shared(scn: &Scenario) -> Arc<Shared> {
+    Arc::new(Shared {
         log: Mutex::new(vec![]),
         calls: scn.calls.iter().map(|c| (c.k, c.clone())).collect(),
         gates: scn.calls.iter().map(|c| (c.k, Arc::new(Semaphore::new(0)))).collect(),
         cgates: scn.calls.iter().map(|c| (c.k, Arc::new(Semaphore::new(0)))).collect(),
-    });
-    let (inc_tx, inc_rx) = mpsc::unbounded_channel::<Result<FragIo, io::Error>>();
-    let mut inc_tx = Some(inc_tx);
-    let (sig_tx, sig_rx) = oneshot::channel::<()>();
-    let mut sig_tx = Some(sig_tx);
-    let mut kept_sig_tx = None; // a fired sender is consumed; an unfired one must stay alive
+        ports: Mutex::new(HashMap::new()),
+    })
+}
+fn mk_builder(scn: &Scenario) -> Server {
     let mut b = Server::builder();
     if let Some(ms) = scn.max_age_ms {
         b = b.max_connection_age(Duration::from_millis(ms));
     }
-    let serve = b.add_service(Svc(sh.clone())).serve_with_incoming_shutdown(
-        Incoming { rx: inc_rx, sh: sh.clone() },
+    if scn.opts.accept_http1 {
+        b = b.accept_http1(true);
+    }
+    if let Some(n) = scn.opts.limit {
+        b = b.concurrency_limit_per_connection(n);
+    }
+    if let Some(ms) = scn.opts.timeout_ms {
+        b = b.timeout(Duration::from_millis(ms));
+    }
+    b
+}
+async fn run_case(scn: Scenario) -> RunResult {
+    let sh = mk_shared(&scn);
+    let (inc_tx, inc_rx) = mpsc::unbounded_channel::<Result<FragIo, io::Error>>();
+    let mut inc_tx = Some(inc_tx);
+    let (sig_tx, sig_rx) = oneshot::channel::<()>();
+    // shared with the permanently ready listener, which fires the signal itself
+    let sig_tx: SigTx = Arc::new(Mutex::new(Some(sig_tx)));
+    let flood = Arc::new(Mutex::new(FloodState::default()));
+    let mut kept_sig_tx = None; // a fired sender is consumed; an unfired one must stay alive
+    let serve = mk_builder(&scn).add_service(Svc(sh.clone())).serve_with_incoming_shutdown(
+        Incoming { rx: inc_rx, sh: sh.clone(), flood: flood.clone(), sig_tx: sig_tx.clone() },
         Sig { rx: sig_rx, sh: sh.clone() },
     );
     let sh2 = sh.clone();
@@ -764,6 +882,7 @@ async fn run_case(scn: Scenario) -> RunResult {
     let mut outcomes: BTreeMap<u32, Outcome> = BTreeMap::new();
     let mut shutdown_begun = false;
     let mut fired_unsettled = false;
+    let mut flood_idle_marked = false;
     let mut eager_tasks: HashMap<u32, tokio::task::JoinHandle<()>> = HashMap::new();
     let mut spoke: HashMap<u32, Arc<std::sync::atomic::AtomicBool>> = HashMap::new();
     for act in &scn.script {
@@ -832,15 +951,27 @@ async fn run_case(scn: Scenario) -> RunResult {
             Act::Gate(k) => sh.gates[k].add_permits(1),
             Act::CGate(k) => sh.cgates[k].add_permits(1),
             Act::Signal => {
-                if sig_tx.is_some() {
+                shutdown_begun = true;
+                if let Some(t) = sig_tx.lock().unwrap().take() {
                     sh.log(Ev::MarkSignalFired);
                     fired_unsettled = true;
-                }
-                shutdown_begun = true;
-                if let Some(t) = sig_tx.take() {
                     let _ = t.send(());
                 }
             }
+            Act::Flood(pre, cap) => {
+                shutdown_begun = true;
+                let w = {
+                    let mut f = flood.lock().unwrap();
+                    f.on = true;
+                    f.pre = (*pre).max(1);
+                    f.cap = *cap;
+                    f.waker.take()
+                };
+                if let Some(w) = w {
+                    w.wake();
+                }
+            }
+            Act::Await(_) => {}
             Act::EndIncoming => {
                 shutdown_begun = true;
                 inc_tx = None;
@@ -865,6 +996,11 @@ async fn run_case(scn: Scenario) -> RunResult {
             }
             Act::Settle => {
                 settle().await;
+                if flood.lock().unwrap().fired && !flood_idle_marked {
+                    // the listener fired the signal during this stretch
+                    flood_idle_marked = true;
+                    fired_unsettled = true;
+                }
                 if fired_unsettled {
                     fired_unsettled = false;
                     sh.log(Ev::MarkIdleAfterFire);
@@ -873,13 +1009,13 @@ async fn run_case(scn: Scenario) -> RunResult {
         }
     }
     if !shutdown_begun {
-        sh.log(Ev::MarkSignalFired);
-        fired_unsettled = true;
-        if let Some(t) = sig_tx.take() {
+        if let Some(t) = sig_tx.lock().unwrap().take() {
+            sh.log(Ev::MarkSignalFired);
+            fired_unsettled = true;
             let _ = t.send(());
         }
     }
-    if let Some(t) = sig_tx.take() {
+    if let Some(t) = sig_tx.lock().unwrap().take() {
         kept_sig_tx = Some(t);
     }
     // drain: open the remaining gates one phase at a time
@@ -887,6 +1023,10 @@ async fn run_case(scn: Scenario) -> RunResult {
     let rounds = rounds.max(scn.calls.iter().map(|c| c.client_phases()).max().unwrap_or(0) + 1);
     for _ in 0..rounds {
         settle().await;
+        if flood.lock().unwrap().fired && !flood_idle_marked {
+            flood_idle_marked = true;
+            fired_unsettled = true;
+        }
         if fired_unsettled {
             fired_unsettled = false;
             sh.log(Ev::MarkIdleAfterFire);
@@ -947,15 +1087,193 @@ async fn run_case(scn: Scenario) -> RunResult {
     RunResult { log, outcomes, serve_returned_in_time, serve_returned_finally, stalled_open }
 }
 
+/// poll the log (real time) until `pred` holds; false after `max_ms`
+async fn wait_log(sh: &Shared, max_ms: u64, pred: impl Fn(&[Ev]) -> bool) -> bool {
+    let t0 = std::time::Instant::now();
+    loop {
+        if pred(&sh.log.lock().unwrap()) {
+            return true;
+        }
+        if t0.elapsed() > Duration::from_millis(max_ms) {
+            return false;
+        }
+        tokio::time::sleep(Duration::from_millis(1)).await;
+    }
+}
+/// The tcp kinds: `Router::serve_with_shutdown(addr, signal)` on 127.0.0.1, real tonic clients over
+/// real sockets, real time.  The listener and the server's transport objects are tonic's own, so
+/// accepts, GOAWAY frames and connection closes are not observable; what is: the signal, the
+/// application-level start and end of every call, the callers' outcomes, the return of the serve
+/// future.  Pacing sleeps only shape the schedule - every wait the verdict depends on is on an
+/// event (a call has started, the signal was observed, a caller has its outcome).
+async fn run_tcp(scn: Scenario) -> RunResult {
+    let sh = mk_shared(&scn);
+    // a free port: bind port 0, note the port, release it, let tonic bind it.  Should somebody else
+    // take it in between (serve returns Err at once), start over with another one.
+    let mut attempt = 0;
+    let (mut sig_tx, addr, mut serve_h) = loop {
+        let (sig_tx, sig_rx) = oneshot::channel::<()>();
+        let port = {
+            let l = std::net::TcpListener::bind("127.0.0.1:0").expect("bind 127.0.0.1:0");
+            l.local_addr().unwrap().port()
+        };
+        let addr: std::net::SocketAddr = ([127, 0, 0, 1], port).into();
+        let serve = mk_builder(&scn).add_service(Svc(sh.clone())).serve_with_shutdown(addr, Sig { rx: sig_rx, sh: sh.clone() });
+        let sh2 = sh.clone();
+        let serve_h = tokio::spawn(async move {
+            let r = serve.await;
+            sh2.log(Ev::ServeReturned(r.is_ok()));
+        });
+        tokio::time::sleep(Duration::from_millis(5)).await;
+        attempt += 1;
+        if serve_h.is_finished() && attempt < 5 {
+            sh.log.lock().unwrap().clear();
+            continue;
+        }
+        break (Some(sig_tx), addr, serve_h);
+    };
+    let mut channels: HashMap<u32, Result<Channel, String>> = HashMap::new();
+    let mut tasks: BTreeMap<u32, tokio::task::JoinHandle<Outcome>> = BTreeMap::new();
+    let mut outcomes: BTreeMap<u32, Outcome> = BTreeMap::new();
+    let mut shutdown_begun = false;
+    let pace = || tokio::time::sleep(Duration::from_millis(2));
+    // a refused connect is retried only while the server may still be about to listen
+    let may_come_up = Arc::new(std::sync::atomic::AtomicBool::new(true));
+    for act in &scn.script {
+        match act {
+            Act::Offer(c) => {
+                sh.log(Ev::MarkOffered(*c));
+                let (sh3, c3, up) = (sh.clone(), *c, may_come_up.clone());
+                let connector = tower::service_fn(move |_: http::Uri| {
+                    let sh = sh3.clone();
+                    let up = up.clone();
+                    async move {
+                        let mut n = 0;
+                        loop {
+                            match tokio::net::TcpStream::connect(addr).await {
+                                Ok(s) => {
+                                    if let Ok(a) = s.local_addr() {
+                                        sh.ports.lock().unwrap().insert(a.port(), c3);
+                                    }
+                                    return Ok::<_, io::Error>(TokioIo::new(s));
+                                }
+                                // the server may not be listening yet
+                                Err(_) if up.load(std::sync::atomic::Ordering::SeqCst) && n < 400 => {
+                                    n += 1;
+                                    tokio::time::sleep(Duration::from_millis(5)).await;
+                                }
+                                Err(e) => return Err(e),
+                            }
+                        }
+                    }
+                });
+                let ep = Endpoint::from_static("http://verif.invalid");
+                let r = tokio::time::timeout(Duration::from_secs(10), ep.connect_with_connector(connector)).await;
+                channels.insert(
+                    *c,
+                    match r {
+                        Ok(Ok(ch)) => Ok(ch),
+                        Ok(Err(e)) => Err(e.to_string()),
+                        Err(_) => Err("connect timed out".into()),
+                    },
+                );
+            }
+            Act::Call(k) => {
+                let spec = sh.calls[k].clone();
+                let cg = sh.cgates[k].clone();
+                match channels.get(&spec.c).cloned() {
+                    Some(Ok(ch)) => {
+                        tasks.insert(*k, tokio::spawn(async move { client_call(ch, spec, cg).await }));
+                    }
+                    Some(Err(e)) => {
+                        outcomes.insert(*k, Outcome::Done(vec![], Code::Unavailable as i32, format!("connect failed: {}", e)));
+                    }
+                    None => {
+                        outcomes.insert(*k, Outcome::NotStarted);
+                    }
+                }
+                let kk = *k;
+                if !shutdown_begun {
+                    wait_log(&sh, 5000, |l| l.iter().any(|e| matches!(e, Ev::CallStart(_, x) if *x == kk))).await;
+                } else {
+                    tokio::time::sleep(Duration::from_millis(20)).await;
+                }
+            }
+            Act::Gate(k) => {
+                sh.gates[k].add_permits(1);
+                pace().await;
+            }
+            Act::CGate(k) => {
+                sh.cgates[k].add_permits(1);
+                pace().await;
+            }
+            Act::Signal => {
+                shutdown_begun = true;
+                may_come_up.store(false, std::sync::atomic::Ordering::SeqCst);
+                if let Some(t) = sig_tx.take() {
+                    sh.log(Ev::MarkSignalFired);
+                    let _ = t.send(());
+                    wait_log(&sh, 5000, |l| l.contains(&Ev::Signal)).await;
+                }
+            }
+            Act::Await(k) => {
+                if let Some(h) = tasks.remove(k) {
+                    let o = match tokio::time::timeout(Duration::from_secs(10), h).await {
+                        Ok(Ok(o)) => o,
+                        Ok(Err(_)) => Outcome::Panicked,
+                        Err(_) => Outcome::Hang,
+                    };
+                    outcomes.insert(*k, o);
+                }
+            }
+            Act::Settle => pace().await,
+            // the listener is tonic's own here, and clients stay
+            Act::EndIncoming | Act::IncomingError(_) | Act::DropClient(_) | Act::Flood(..) => {}
+        }
+    }
+    may_come_up.store(false, std::sync::atomic::Ordering::SeqCst);
+    if let Some(t) = sig_tx.take() {
+        sh.log(Ev::MarkSignalFired);
+        let _ = t.send(());
+        wait_log(&sh, 5000, |l| l.contains(&Ev::Signal)).await;
+    }
+    let rounds = scn.calls.iter().map(|c| c.phases().max(c.client_phases())).max().unwrap_or(0) + 1;
+    for _ in 0..rounds {
+        pace().await;
+        for g in sh.gates.values() {
+            g.add_permits(1);
+        }
+        for g in sh.cgates.values() {
+            g.add_permits(1);
+        }
+    }
+    let serve_returned_in_time = tokio::time::timeout(Duration::from_secs(20), &mut serve_h).await.is_ok();
+    for (k, h) in tasks {
+        let o = match tokio::time::timeout(Duration::from_secs(10), h).await {
+            Ok(Ok(o)) => o,
+            Ok(Err(e)) if e.is_cancelled() => Outcome::Aborted,
+            Ok(Err(_)) => Outcome::Panicked,
+            Err(_) => Outcome::Hang,
+        };
+        outcomes.insert(k, o);
+    }
+    drop(channels);
+    let serve_returned_finally =
+        serve_returned_in_time || tokio::time::timeout(Duration::from_secs(5), &mut serve_h).await.is_ok();
+    let log = sh.log.lock().unwrap().clone();
+    RunResult { log, outcomes, serve_returned_in_time, serve_returned_finally, stalled_open: vec![] }
+}
+
 fn run_blocking(scn: &Scenario) -> Result<RunResult, String> {
     let scn = scn.clone();
     catch(move || {
-        let rt = tokio::runtime::Builder::new_current_thread()
-            .enable_all()
-            .start_paused(true)
-            .build()
-            .unwrap();
-        let r = rt.block_on(run_case(scn));
+        let mut b = tokio::runtime::Builder::new_current_thread();
+        b.enable_all();
+        if !scn.opts.tcp {
+            b.start_paused(true);
+        }
+        let rt = b.build().unwrap();
+        let r = if scn.opts.tcp { rt.block_on(run_tcp(scn)) } else { rt.block_on(run_case(scn)) };
         drop(rt);
         r
     })
@@ -966,17 +1284,46 @@ fn pos(log: &[Ev], e: &Ev) -> Option<usize> {
     log.iter().position(|x| x == e)
 }
 /// the model's event vocabulary (Model/Shutdown.v, type `ev`)
+///
+/// EGoawayFinal c stands for "the final GOAWAY of c is in force": the frame is on the wire AND every
+/// stream it covers has been handed to the service.  h2 counts a stream it has already received
+/// into the frame's last-stream-id, and hyper hands that stream to the service right afterwards
+/// (same poll), so the frame alone can precede the start of a call it covers.  Streams of one
+/// connection carry the ids 1, 3, 5, ... in the order in which they reach the service, so a frame
+/// with last-stream-id L covers the first (L+1)/2 calls of the connection; the event is emitted
+/// after the last of them has started (or right before the connection closes, should it close
+/// first).  A call that starts beyond what the frame covers comes after the event and is
+/// rejected by the model (law 1 of hyper_contract).
 fn abstract_trace(log: &[Ev]) -> Vec<String> {
     let mut out = vec![];
     let mut dropped_clients: BTreeSet<u32> = BTreeSet::new();
     let mut closed: BTreeSet<u32> = BTreeSet::new();
+    let mut started: HashMap<u32, u32> = HashMap::new();
+    // connection -> number of calls the final GOAWAY written on it covers, while some are still to start
+    let mut final_pending: HashMap<u32, u32> = HashMap::new();
     for e in log {
+        if let Ev::ConnClosed(c) = e {
+            if final_pending.remove(c).is_some() {
+                out.push(format!("EGoawayFinal {}", c));
+            }
+        }
         match e {
             Ev::Accept(c) => out.push(format!("EAccept {}", c)),
             Ev::Signal => out.push("ESignal".into()),
             Ev::IncomingEnd => out.push("EIncomingEnd".into()),
             Ev::IncomingErr => out.push("EIncomingErr".into()),
-            Ev::CallStart(c, k) => out.push(format!("ECallStart {} {}", c, k)),
+            // a call that was waiting behind the concurrency limit can reach the application after
+            // its caller and its connection are gone: part of the abort, like the end of such a call
+            Ev::CallStart(c, _) if dropped_clients.contains(c) && closed.contains(c) => {}
+            Ev::CallStart(c, k) => {
+                out.push(format!("ECallStart {} {}", c, k));
+                let n = started.entry(*c).or_insert(0);
+                *n += 1;
+                if final_pending.get(c).map(|cov| *n >= *cov).unwrap_or(false) {
+                    final_pending.remove(c);
+                    out.push(format!("EGoawayFinal {}", c));
+                }
+            }
             Ev::CallDone(c, k, true) => {
                 // after its caller and the connection are gone the handler's end is part of the abort
                 if !(dropped_clients.contains(c) && closed.contains(c)) {
@@ -1004,14 +1351,21 @@ fn abstract_trace(log: &[Ev]) -> Vec<String> {
             }
             Ev::ServeReturned(_) => out.push("EServeReturned".into()),
             Ev::Quiet => out.push("EQuiet".into()),
-            Ev::Goaway(c, false) => out.push(format!("EGoaway {}", c)),
-            Ev::Goaway(c, true) => out.push(format!("EGoawayFinal {}", c)),
+            Ev::Goaway(c, false, _) => out.push(format!("EGoaway {}", c)),
+            Ev::Goaway(c, true, last) => {
+                let covered = (*last + 1) / 2;
+                if started.get(c).cloned().unwrap_or(0) >= covered {
+                    out.push(format!("EGoawayFinal {}", c));
+                } else {
+                    final_pending.insert(*c, covered);
+                }
+            }
             Ev::MarkSignalFired => out.push("ESignalFired".into()),
             Ev::MarkIdleAfterFire => out.push("EIdleAfterFire".into()),
             Ev::MarkClientDropped(c) => {
                 dropped_clients.insert(*c);
             }
-            Ev::MarkOffered(_) => {}
+            Ev::MarkOffered(_) | Ev::FloodExhausted => {}
         }
     }
     out
@@ -1020,11 +1374,15 @@ fn abstract_trace(log: &[Ev]) -> Vec<String> {
 /// the property judged directly on what the implementation did
 fn oracle(scn: &Scenario, r: &RunResult) -> Option<String> {
     let log = &r.log;
+    let tcp = scn.opts.tcp;
     let aborted = |k: &u32| matches!(r.outcomes.get(k), Some(Outcome::Aborted));
     let serve_at = log.iter().position(|e| matches!(e, Ev::ServeReturned(_)));
     // the serve future resolves, once, with Ok - as soon as the connections have closed.  A
     // connection whose peer never sent a byte is the one thing the server keeps waiting for.
     if !r.serve_returned_in_time {
+        if tcp {
+            return Some("tcp: the serve future did not resolve within 20 s of the signal although every handler had been let through".into());
+        }
         if r.stalled_open.is_empty() {
             return Some("every connection had closed but the serve future did not resolve".into());
         }
@@ -1049,6 +1407,24 @@ fn oracle(scn: &Scenario, r: &RunResult) -> Option<String> {
     if let Some(i) = pos(log, &Ev::MarkIdleAfterFire) {
         if !log[..i].iter().any(|e| matches!(e, Ev::Signal | Ev::IncomingEnd)) {
             return Some("the signal had fired and the server had gone idle, but the accept loop had not observed it".into());
+        }
+    }
+    // NO CONNECTION IS ACCEPTED AFTER THE SIGNAL - counted from the moment the signal FIRED (the
+    // user's future became ready), not from the moment the accept loop got round to looking at it
+    if let Some(f) = pos(log, &Ev::MarkSignalFired) {
+        let late: Vec<u32> = log[f..].iter().filter_map(|e| if let Ev::Accept(c) = e { Some(*c) } else { None }).collect();
+        if log.contains(&Ev::FloodExhausted) {
+            return Some(format!(
+                "the listener stayed ready and the signal was starved: {} connections were accepted after the signal had fired",
+                late.len()
+            ));
+        }
+        if let Some(c) = late.first() {
+            return Some(format!(
+                "connection {} was accepted after the signal had fired ({} connections in all)",
+                c,
+                late.len()
+            ));
         }
     }
     // nothing is accepted once the accept loop saw the signal (or the end of the listener)
@@ -1100,6 +1476,8 @@ fn oracle(scn: &Scenario, r: &RunResult) -> Option<String> {
             let closed = pos(log, &Ev::ConnClosed(*c));
             match (done, closed) {
                 (Some(d), Some(cl)) if d < cl && d < serve_at => {}
+                // over TCP the server's transport object is tonic's own: its drop is not observable
+                (Some(d), None) if tcp && d < serve_at => {}
                 (None, _) => return Some(format!("accepted call {} on connection {} was dropped before it completed", k, c)),
                 _ => return Some(format!("connection {} closed (or serve returned) before accepted call {} completed", c, k)),
             }
@@ -1178,9 +1556,22 @@ fn push_case(out: &mut Out, kind: &str, scn: &Scenario) {
                 Act::IncomingError(_) => "incoming_error",
                 Act::DropClient(_) => "drop_client",
                 Act::Settle => "settle",
+                Act::Flood(..) => "flood",
+                Act::Await(_) => "await",
             },
         );
     }
+    out.hist(
+        "builder_options",
+        format!(
+            "http1={} limit={} timeout={} age={} tcp={}",
+            scn.opts.accept_http1 as u8,
+            scn.opts.limit.is_some() as u8,
+            scn.opts.timeout_ms.is_some() as u8,
+            scn.max_age_ms.is_some() as u8,
+            scn.opts.tcp as u8
+        ),
+    );
     out.hist("calls", scn.calls.len());
     out.hist("conns", scn.conns.len());
     for c in &scn.conns {
@@ -1236,14 +1627,11 @@ fn push_case(out: &mut Out, kind: &str, scn: &Scenario) {
                         r.log.iter().filter(|e| matches!(e, Ev::Accept(c) if offered.contains(c))).count()
                     };
                     out.hist("race:ready_with_signal=>accepted", format!("{:02}=>{:02}", ready, acc_tick));
-                    out.hist("race:accepts_between_firing_and_observation", acc);
-                } else {
-                    out.hist("accepts_between_firing_and_observation", acc);
                 }
-                let _ = offered;
+                let _ = (acc, offered);
             }
             for e in &r.log {
-                if let Ev::Goaway(_, fin) = e {
+                if let Ev::Goaway(_, fin, _) = e {
                     out.hist("goaway_frames", if *fin { "final" } else { "announce" });
                 }
             }
@@ -1253,7 +1641,7 @@ fn push_case(out: &mut Out, kind: &str, scn: &Scenario) {
                 let mut n = 0;
                 for e in &r.log {
                     match e {
-                        Ev::Goaway(c, false) => {
+                        Ev::Goaway(c, false, _) => {
                             ann.insert(*c);
                         }
                         Ev::CallStart(c, _) if ann.contains(c) => n += 1,
@@ -1262,7 +1650,7 @@ fn push_case(out: &mut Out, kind: &str, scn: &Scenario) {
                 }
                 out.hist("calls_admitted_after_goaway_announcement", n);
                 let told_before_signal = match stop {
-                    Some(s) => r.log[..s].iter().any(|e| matches!(e, Ev::Goaway(_, false))),
+                    Some(s) => r.log[..s].iter().any(|e| matches!(e, Ev::Goaway(_, false, _))),
                     None => false,
                 };
                 out.hist("goaway_before_signal_observed(max_connection_age)", told_before_signal);
@@ -1270,13 +1658,67 @@ fn push_case(out: &mut Out, kind: &str, scn: &Scenario) {
             for c in &scn.calls {
                 out.hist("call_kind", c.kind.name());
             }
+            {
+                // final GOAWAY frames written before a call they cover was handed to the service
+                let mut st: HashMap<u32, u32> = HashMap::new();
+                let mut n = 0;
+                for e in &r.log {
+                    match e {
+                        Ev::CallStart(c, _) => *st.entry(*c).or_insert(0) += 1,
+                        Ev::Goaway(c, true, last) if st.get(c).cloned().unwrap_or(0) < (*last + 1) / 2 => n += 1,
+                        _ => {}
+                    }
+                }
+                out.hist("final_goaway_written_before_a_covered_call_started", n);
+            }
+            if let Some(n) = scn.opts.limit {
+                // most calls in flight at once on one connection, against the limit
+                let mut cur: HashMap<u32, usize> = HashMap::new();
+                let mut peak = 0;
+                for e in &r.log {
+                    match e {
+                        Ev::CallStart(c, _) => {
+                            let x = cur.entry(*c).or_insert(0);
+                            *x += 1;
+                            peak = peak.max(*x);
+                        }
+                        Ev::CallDone(c, _, _) => {
+                            if let Some(x) = cur.get_mut(c) {
+                                *x = x.saturating_sub(1);
+                            }
+                        }
+                        _ => {}
+                    }
+                }
+                // (the limit's permit is held until the response head is ready, not until the body ends)
+                out.hist("concurrency_limit=>peak_unfinished_calls_on_a_connection", format!("{}=>{}", n.min(9), peak));
+            }
             out.hist("accepted_calls", accepted.len());
             out.hist("trace_len", tr.len());
             let refused = scn.calls.iter().filter(|s| !accepted.contains(&s.k)).count();
             out.hist("calls_not_accepted", refused);
+            if let Some(f) = pos(&r.log, &Ev::MarkSignalFired) {
+                let late = r.log[f..].iter().filter(|e| matches!(e, Ev::Accept(_))).count();
+                out.hist("accepted_after_the_signal_fired", late);
+                if scn.script.iter().any(|a| matches!(a, Act::Flood(..))) {
+                    let before = r.log[..f].iter().filter(|e| matches!(e, Ev::Accept(c) if *c >= FLOOD_BASE)).count();
+                    out.hist("flood:handed_out_before_firing=>after", format!("{:02}=>{:02}", before, late));
+                }
+            }
+            let silent = r.log.iter().any(|e| matches!(e, Ev::Accept(c) if !r.log.iter().any(|x| matches!(x, Ev::CallStart(d, _) if d == c)) && *c < FLOOD_BASE));
+            if silent {
+                out.hist(
+                    "connection_without_calls:http1=>stalled",
+                    format!("{}=>{}", scn.opts.accept_http1 as u8, (!r.serve_returned_in_time) as u8),
+                );
+            }
             let model = format!(
-                "(obs_shutdown {} {} {} {})",
-                coq_bool(scn.max_age_ms.is_some()),
+                "({} {} {} {})",
+                if scn.opts.tcp {
+                    "obs_shutdown_tcp".to_string()
+                } else {
+                    format!("obs_shutdown {} {}", coq_bool(scn.max_age_ms.is_some()), coq_bool(scn.opts.accept_http1))
+                },
                 coq_list(&tr, |e| e.clone()),
                 coq_list(&scn.calls, coq_call),
                 coq_list(&aborted, |k| k.to_string()),
@@ -1405,7 +1847,7 @@ fn with_signal(conns: &[ConnSpec], calls: &[CallSpec], steps: &[Act], at: usize,
         script.push(sig);
     }
     script.push(Act::Settle);
-    Scenario { conns: conns.to_vec(), calls: calls.to_vec(), script, max_age_ms: None }
+    Scenario { conns: conns.to_vec(), calls: calls.to_vec(), script, max_age_ms: None, opts: Opts::default() }
 }
 /// a random interleaving of the per-call step sequences (order inside a call kept)
 fn interleave(r: &mut Rng, calls: &[CallSpec]) -> Vec<Act> {
@@ -1492,7 +1934,7 @@ fn gen_random(r: &mut Rng, thorough: bool) -> (String, Scenario) {
     let steps = interleave(r, &calls);
     let at = r.below(steps.len() as u64 + 1) as usize;
     let race = r.below(4) as u8;
-    let flavour = r.below(22);
+    let flavour = r.below(24);
     let sig = if flavour == 0 { Act::EndIncoming } else { Act::Signal };
     let mut s = with_signal(&conns, &calls, &steps, at, race, sig);
     let mut kind = "rand.signal";
@@ -1587,12 +2029,220 @@ fn gen_random(r: &mut Rng, thorough: bool) -> (String, Scenario) {
             }
         }
         kind = "rand.connection_arrives_with_its_call";
+    } else if flavour == 18 || flavour == 19 || flavour == 22 {
+        // the listener stays ready while the signal fires: replace the signal by a flood
+        if let Some(p) = s.script.iter().position(|a| *a == Act::Signal) {
+            s.script[p] = Act::Flood(r.range(1, 6) as u32, *r.pick(&[4u32, 16, 40]));
+            kind = "rand.flood";
+        }
+    } else if flavour == 20 || flavour == 23 {
+        // a connection whose peer stays silent (no preface) until after the signal, or for ever
+        let c = nconn;
+        let mut sp = gen_conn(r, c, false);
+        sp.eager = false;
+        s.conns.push(sp);
+        s.script.insert(0, Act::Offer(c));
+        if r.chance(1, 2) {
+            let k = ncall;
+            s.calls.push(unary(k, c, None));
+            let sig_pos = s.script.iter().position(|a| matches!(a, Act::Signal | Act::EndIncoming)).unwrap();
+            let mut at = sig_pos + 1;
+            if r.chance(2, 3) {
+                s.script.insert(at, Act::Settle);
+                at += 1;
+            }
+            s.script.insert(at, Act::Call(k));
+            s.script.insert(at + 1, Act::Gate(k));
+        }
+        s.opts.accept_http1 = r.chance(1, 2);
+        kind = "rand.silent_peer";
+    }
+    // builder options that must not change anything about the shutdown
+    if r.chance(1, 5) {
+        s.opts.accept_http1 = true;
+    }
+    if r.chance(1, 5) {
+        s.opts.limit = Some(match r.below(3) {
+            0 => 1,
+            1 => 2,
+            _ => s.calls.len() + 1,
+        });
+    }
+    if r.chance(1, 6) {
+        s.opts.timeout_ms = Some(3_600_000);
     }
     (kind.to_string(), s)
 }
 
+/// a tcp scenario: every connection is opened and proven accepted by a completed ping call before
+/// anything else happens; `late` adds a connection (with a call) offered after the signal was observed
+fn tcp_scenario(nconn: u32, calls: Vec<CallSpec>, steps: Vec<Act>, at: usize, late: bool, opts: Opts) -> Scenario {
+    let mut calls = calls;
+    let mut script = vec![];
+    let conns: Vec<ConnSpec> = (0..nconn + late as u32).map(|c| conn(c, 0, 0, 0)).collect();
+    for c in 0..nconn {
+        let k = 120 + c;
+        calls.push(unary(k, c, None));
+        script.extend([Act::Offer(c), Act::Call(k), Act::Gate(k), Act::Await(k)]);
+    }
+    // the late connection is offered right after the signal was observed - while the calls in
+    // flight keep the server (and its listening socket) alive
+    let signal = |script: &mut Vec<Act>, calls: &mut Vec<CallSpec>| {
+        script.push(Act::Signal);
+        if late {
+            let (c, k) = (nconn, 150);
+            calls.push(unary(k, c, None));
+            script.extend([Act::Offer(c), Act::Call(k), Act::Gate(k)]);
+        }
+    };
+    for (i, a) in steps.iter().enumerate() {
+        if i == at {
+            signal(&mut script, &mut calls);
+        }
+        script.push(a.clone());
+    }
+    if at >= steps.len() {
+        signal(&mut script, &mut calls);
+    }
+    Scenario { conns, calls, script, max_age_ms: None, opts: Opts { tcp: true, ..opts } }
+}
+fn tcp_cases(out: &mut Out, r: &mut Rng, thorough: bool) {
+    // fixed: the signal before the headers, mid-stream, at completion, with and without a late connection
+    let sys = vec![streamc(0, 0, 2, None), unary(1, 0, Some((9, "boom")))];
+    let steps: Vec<Act> = sys.iter().flat_map(call_steps).collect();
+    for at in [0usize, 1, 2, 3, steps.len()] {
+        push_case(out, "tcp.serve_with_shutdown", &tcp_scenario(1, sys.clone(), steps.clone(), at, at % 2 == 0, Opts::default()));
+    }
+    let sys = vec![bidi(0, 0, 2, 2, None), cstream(1, 1, 1, None)];
+    let steps: Vec<Act> = sys.iter().flat_map(call_steps).collect();
+    for (i, at) in [2usize, 5, steps.len()].into_iter().enumerate() {
+        let opts = Opts { accept_http1: i == 0, limit: if i == 1 { Some(8) } else { None }, timeout_ms: if i == 2 { Some(3_600_000) } else { None }, tcp: true };
+        push_case(out, "tcp.serve_with_shutdown", &tcp_scenario(2, sys.clone(), steps.clone(), at, true, opts));
+    }
+    for _ in 0..if thorough { 150 } else { 12 } {
+        let nconn = r.range(1, 2) as u32;
+        let ncall = r.range(1, 3) as u32;
+        let calls: Vec<CallSpec> = (0..ncall)
+            .map(|k| {
+                let c = r.below(nconn as u64) as u32;
+                match r.below(4) {
+                    0 => unary(k, c, gen_status(r).as_ref().map(|(c, m)| (*c, m.as_str()))),
+                    1 => streamc(k, c, r.range(0, 3) as usize, None),
+                    2 => cstream(k, c, r.range(0, 2) as usize, None),
+                    _ => bidi(k, c, r.range(0, 2) as usize, r.range(0, 2) as usize, None),
+                }
+            })
+            .collect();
+        let steps = interleave(r, &calls);
+        let at = r.below(steps.len() as u64 + 1) as usize;
+        let opts = Opts { accept_http1: r.chance(1, 4), limit: if r.chance(1, 4) { Some(16) } else { None }, timeout_ms: None, tcp: true };
+        push_case(out, "tcp.rand", &tcp_scenario(nconn, calls, steps, at, r.chance(1, 2), opts));
+    }
+}
+
 fn corpus(out: &mut Out) {
     let c0 = [conn(0, 65536, 0, 0)];
+    // F-C13a (fixed): the signal fires, THEN connections are offered, all before the accept loop runs
+    // again: none of them may be accepted (an unbiased select! took the listener half of the time)
+    for n in [1u32, 4, 8] {
+        for with_call_in_flight in [false, true] {
+            let mut conns = vec![];
+            let mut calls = vec![];
+            let mut script = vec![];
+            if with_call_in_flight {
+                conns.push(conn(100, 65536, 0, 0));
+                calls.push(streamc(100, 100, 1, None));
+                script.extend([Act::Offer(100), Act::Settle, Act::Call(100), Act::Settle, Act::Gate(100)]);
+            }
+            script.push(Act::Settle);
+            script.push(Act::Signal);
+            for i in 0..n {
+                conns.push(conn(i, 65536, 0, 0));
+                calls.push(unary(i, i, None));
+                script.push(Act::Offer(i));
+            }
+            for i in 0..n {
+                script.push(Act::Call(i));
+                script.push(Act::Gate(i));
+            }
+            script.push(Act::Settle);
+            for _ in 0..3 {
+                push_case(out, "corpus.F-C13a", &Scenario { conns: conns.clone(), calls: calls.clone(), script: script.clone(), max_age_ms: None, opts: Opts::default() });
+            }
+        }
+    }
+    // the listener stays permanently ready while the signal fires (it fires it itself after `pre`
+    // connections): a select loop that prefers the listener never gets to the signal
+    for pre in [1u32, 2, 5] {
+        for cap in [8u32, 40] {
+            let calls = vec![streamc(0, 0, 2, None)];
+            let script = vec![
+                Act::Offer(0), Act::Settle, Act::Call(0), Act::Settle, Act::Gate(0), Act::Settle, Act::Gate(0), Act::Settle,
+                Act::Flood(pre, cap), Act::Settle,
+            ];
+            push_case(out, "corpus.flood", &Scenario { conns: c0.to_vec(), calls, script, max_age_ms: None, opts: Opts::default() });
+        }
+    }
+    push_case(
+        out,
+        "corpus.flood",
+        &Scenario { conns: vec![], calls: vec![], script: vec![Act::Settle, Act::Flood(3, 40), Act::Settle], max_age_ms: None, opts: Opts::default() },
+    );
+    // builder options that sit in the per-connection stack: the shutdown must be unaffected
+    {
+        let sys = [streamc(0, 0, 2, None), unary(1, 0, Some((9, "boom"))), cstream(2, 0, 1, None)];
+        let steps: Vec<Act> = sys.iter().flat_map(call_steps).collect();
+        for at in [0usize, 2, 4, steps.len()] {
+            for o in 0..4 {
+                let mut sc = with_signal(&c0, &sys, &steps, at, 0, Act::Signal);
+                sc.opts = Opts {
+                    accept_http1: o == 0 || o == 3,
+                    limit: if o == 1 || o == 3 { Some(3) } else { None },
+                    timeout_ms: if o == 2 || o == 3 { Some(3_600_000) } else { None },
+                    tcp: false,
+                };
+                push_case(out, "corpus.builder_options", &sc);
+            }
+        }
+    }
+    // calls queued behind concurrency_limit_per_connection when the signal fires: hyper has their
+    // streams, the application has not seen them yet; they run to completion all the same
+    {
+        let sys = [streamc(0, 0, 1, None), unary(1, 0, None), streamc(2, 0, 1, Some((7, "boom")))];
+        let mut steps: Vec<Act> = sys.iter().map(|c| Act::Call(c.k)).collect();
+        for c in &sys {
+            steps.extend(call_steps(c).into_iter().skip(1));
+        }
+        for limit in [1usize, 2] {
+            for at in 2..=steps.len() {
+                for race in [0u8, 3] {
+                    let mut sc = with_signal(&c0, &sys, &steps, at, race, Act::Signal);
+                    sc.opts.limit = Some(limit);
+                    push_case(out, "corpus.limit_queue", &sc);
+                }
+            }
+        }
+    }
+    // a peer that never sends its preface: with http2 only the shutdown waits for it (until it goes
+    // away), with accept_http1 hyper-util's version detection is cancelled and the connection closes
+    for http1 in [false, true] {
+        for late_call in [false, true] {
+            let mut silent = conn(1, 65536, 0, 0);
+            silent.eager = false;
+            let mut calls = vec![unary(0, 0, None)];
+            let mut script = vec![Act::Offer(0), Act::Offer(1), Act::Settle, Act::Call(0), Act::Settle, Act::Signal, Act::Settle];
+            if late_call {
+                calls.push(unary(1, 1, None));
+                script.extend([Act::Call(1), Act::Gate(1), Act::Settle]);
+            }
+            script.extend([Act::Gate(0), Act::Settle]);
+            push_case(
+                out,
+                "corpus.silent_peer",
+                &Scenario { conns: vec![conn(0, 65536, 0, 0), silent], calls, script, max_age_ms: None, opts: Opts { accept_http1: http1, ..Opts::default() } },
+            );
+        }
+    }
     // the three placements named by the property, one call
     let st = [streamc(0, 0, 2, None)];
     let steps = call_steps(&st[0]);
@@ -1656,7 +2306,7 @@ fn corpus(out: &mut Out) {
                 script.push(Act::Gate(i));
             }
             script.push(Act::Settle);
-            push_case(out, "corpus.signal_vs_accept", &Scenario { conns, calls, script, max_age_ms: None });
+            push_case(out, "corpus.signal_vs_accept", &Scenario { conns, calls, script, max_age_ms: None, opts: Opts::default() });
         }
     }
     // error statuses survive the shutdown
@@ -1683,6 +2333,7 @@ fn corpus(out: &mut Out) {
                 Act::Settle, Act::Gate(0), Act::Settle,
             ],
             max_age_ms: None,
+            opts: Opts::default(),
         },
     );
     // a connection offered after the signal; a call started after the signal on a notified connection
@@ -1700,6 +2351,7 @@ fn corpus(out: &mut Out) {
                 Act::Gate(0), Act::Settle, Act::Gate(0), Act::Settle,
             ],
             max_age_ms: None,
+            opts: Opts::default(),
         },
     );
 }
@@ -1749,6 +2401,7 @@ fn main() {
     }
 
     corpus(&mut out);
+    tcp_cases(&mut out, &mut r, a.thorough);
     enumerate(&mut out, &mut r, a.thorough);
     let n = if a.thorough { 30000 } else { 2500 } * a.scale;
     for _ in 0..n {
